@@ -1,8 +1,9 @@
 """C04 — stream elements keep the handshake contract and never stall forever.
-Same designs, environments and explorations as C03 (checks/streamcfg.py) with the stability monitor and the graph
-liveness queries reported; plus the packet elements of C16 once registered in streamcfg."""
+Same designs, environments and explorations as C03 (checks/streamcfg.py) and C16 (checks/c16_packet.py: Packetizer,
+Depacketizer, PacketFIFO, Arbiter, Dispatcher) with the stability monitor and the graph liveness queries reported."""
 import fsmc  # noqa
 from checks import c03_streams as _c3
+from checks import c16_packet as _c16
 from checks import streamcfg
 
 PROPERTY = "C04"
@@ -11,16 +12,20 @@ RULE = _c3.RULE + "; liveness = Tarjan SCC search for cooperative cycles without
 ASSUMPTIONS = _c3.ASSUMPTIONS + [
     "stability is required while the element's own control inputs are unchanged",
     "liveness is judged under cooperation: producer offers/holds, consumer ready (DESIGN 4b)",
-]
+] + _c16.ASSUMPTIONS[1:]
 
 
 def configs(tier):
-    return _c3.configs(tier)
+    return _c3.configs(tier) + _c16.configs(tier)
 
 
 def run_config(cfg, seed, tier):
-    return _c3.run_config(cfg, seed, tier, prop="C04")
+    if cfg[0] in streamcfg.REGISTRY:
+        return _c3.run_config(cfg, seed, tier, prop="C04")
+    return _c16.run_config(cfg, seed, tier, prop="C04")
 
 
 def replay(rec):
-    return _c3.replay(rec, prop="C04")
+    if rec["cfg"] in streamcfg.REGISTRY:
+        return _c3.replay(rec, prop="C04")
+    return _c16.replay(rec, prop="C04")
